@@ -154,6 +154,10 @@ def shapes(tier, seed):
         for fr in fracs:
             for zone in ('Z', 'hhmm', 'hh:mm'):
                 out.append(('digits', ds, ts, fr, zone))
+    # long fractions (more digits than fit u32 / u64 / u128): only the first nine count, the instant is unchanged
+    for fr in ((19, 20, 21, 40) if q else (13, 18, 19, 20, 21, 22, 38, 39, 40, 64)):
+        out.append(('digits', (0, 0), (0, 0), fr, 'Z'))
+        out.append(('digits', (1, 1), (1, 1), fr, 'hh:mm'))
     # single-position mutations / insertions / deletions on representative renderings
     repA = ((0, 0), (0, 0), None, 'Z')
     repB = ((1, 1), (1, 1), 2, 'hh:mm')
